@@ -97,3 +97,10 @@ Theorem C09_cluster_update_is_kernel : forall c (f : cfg -> Q),
   (expect (cluster_cfg c) f == expect (gkernel cl_act cl_k c) f)%Q.
 Proof. exact cluster_cfg_is_gkernel. Qed.
 Print Assumptions C09_cluster_update_is_kernel.
+
+(* the weighted cluster update (clusters with a symmetry-breaking operator have probability 0) is a reversible
+   kernel too: conditions are asked only of flip vectors of non-zero probability *)
+Theorem C09_weighted_cluster_update_stationary : forall H wfn beta xs,
+  NoDup xs -> cluster_ready_w H wfn xs -> wstat xs (fun c => sse_weight H beta (snd c)) (cluster_cfg_w wfn).
+Proof. exact cluster_kernel_w_stationary. Qed.
+Print Assumptions C09_weighted_cluster_update_stationary.
